@@ -270,6 +270,51 @@ class ReturnNone(ast.NodeTransformer):
         return n
 
 
+class TupleAssign(_Blocks):
+    """two consecutive assignments to distinct plain local names, the second value call-free and not mentioning the first name
+    -> one tuple assignment `a, b = x, y` (x is evaluated before y either way; y cannot observe the binding of a)"""
+    def block(self, b):
+        out = []
+        i = 0
+        while i < len(b):
+            st = b[i]
+            nx = b[i + 1] if i + 1 < len(b) else None
+            ok = lambda s_: isinstance(s_, ast.Assign) and len(s_.targets) == 1 and isinstance(s_.targets[0], ast.Name) and not isinstance(s_.value, (ast.Tuple, ast.Starred, ast.Yield, ast.YieldFrom, ast.Await))
+            if nx is not None and ok(st) and ok(nx) and st.targets[0].id != nx.targets[0].id \
+                    and not any(isinstance(x, (ast.Call, ast.Yield, ast.YieldFrom, ast.Await, ast.NamedExpr, ast.Lambda)) for x in ast.walk(nx.value)) \
+                    and not any(isinstance(x, (ast.Yield, ast.YieldFrom, ast.Await, ast.NamedExpr)) for x in ast.walk(st.value)) \
+                    and not any(isinstance(x, ast.Name) and x.id == st.targets[0].id for x in ast.walk(nx.value)) \
+                    and not any(isinstance(x, ast.Name) and x.id == nx.targets[0].id for x in ast.walk(st.value)):
+                out.append(ast.copy_location(ast.Assign(targets=[ast.Tuple(elts=[st.targets[0], nx.targets[0]], ctx=ast.Store())], value=ast.Tuple(elts=[st.value, nx.value], ctx=ast.Load()), lineno=st.lineno), st))
+                i += 2
+                continue
+            out.append(st)
+            i += 1
+        return out
+
+    def visit_ClassDef(self, c):
+        for i, st in enumerate(c.body):
+            if isinstance(st, (ast.FunctionDef, ast.AsyncFunctionDef, ast.ClassDef)):
+                c.body[i] = self.visit(st)
+        return c
+
+    def visit_Module(self, m):
+        for i, st in enumerate(m.body):
+            if isinstance(st, (ast.FunctionDef, ast.AsyncFunctionDef, ast.ClassDef)):
+                m.body[i] = self.visit(st)
+        return m
+
+
+class DeMorganRev(ast.NodeTransformer):
+    """`not a or not b` -> `not (a and b)`;  `not a and not b` -> `not (a or b)`  (same evaluation order and short-circuit)"""
+    def visit_BoolOp(self, n):
+        self.generic_visit(n)
+        if len(n.values) >= 2 and all(isinstance(v, ast.UnaryOp) and isinstance(v.op, ast.Not) for v in n.values):
+            flip = ast.And() if isinstance(n.op, ast.Or) else ast.Or()
+            return ast.copy_location(ast.UnaryOp(op=ast.Not(), operand=ast.BoolOp(op=flip, values=[v.operand for v in n.values])), n)
+        return n
+
+
 class CompToLoop(ast.NodeTransformer):
     """inside functions: `x = [E for v in IT if C...]` -> `acc__N = []` / `for v in IT: if C: acc__N.append(E)` / `x = acc__N`
     (one generator, plain Name loop variable that occurs nowhere else in the function, no nested scopes in E/C that could capture it)"""
@@ -405,7 +450,7 @@ def main():
     os.makedirs(dest, exist_ok=True)
     shutil.copytree("/repo/happysimulator", f"{dest}/happysimulator", ignore=shutil.ignore_patterns("__pycache__"))
     n = 0
-    known = {'reformat', 'rename-locals', 'flip-compare', 'aug-expand', 'invert-if', 'all', 'split-and', 'else-wrap', 'else-unwrap', 'ret-temp', 'swap-minmax', 'swap-early-return', 'all2', 'comp-to-loop', 'cond-temp', 'ifexp-to-if', 'chain-split', 'all3', 'while-true', 'early-continue', 'merge-and', 'return-none', 'all4'}
+    known = {'reformat', 'rename-locals', 'flip-compare', 'aug-expand', 'invert-if', 'all', 'split-and', 'else-wrap', 'else-unwrap', 'ret-temp', 'swap-minmax', 'swap-early-return', 'all2', 'comp-to-loop', 'cond-temp', 'ifexp-to-if', 'chain-split', 'all3', 'while-true', 'early-continue', 'merge-and', 'return-none', 'all4', 'tuple-assign', 'demorgan-rev', 'all5'}
     if mode not in known:
         sys.exit(f'unknown mode {mode}')
     for dp, _, fs in os.walk(f"{dest}/happysimulator"):
@@ -451,6 +496,12 @@ def main():
                 t = MergeAnd().visit(t)
             elif mode == "return-none":
                 t = ReturnNone().visit(t)
+            elif mode == "tuple-assign":
+                t = TupleAssign().visit(t)
+            elif mode == "demorgan-rev":
+                t = DeMorganRev().visit(t)
+            elif mode == "all5":
+                t = DeMorganRev().visit(TupleAssign().visit(t))
             elif mode == "all4":
                 t = ReturnNone().visit(MergeAnd().visit(EarlyContinue().visit(WhileTrue().visit(t))))
             elif mode == "all3":
